@@ -17,7 +17,8 @@ Inductive c12op :=
 
 Inductive c13step :=
 | YPub (n : N) (sp : bool) (o_id : N)                 (* checkpoint (savepoint if sp) with n split states *)
-| YW (i : N) (o_id : option N) (o_tag : N)            (* o_tag: split states decoded from the file READ BACK after the write *)
+| YW (i : N) (o_id : option N) (o_tag : N) (o_cur : N) (* o_tag: split states decoded from the file READ BACK after the write;
+                                                          o_cur: CurrentCheckpoint().Id afterwards (0 = none) *)
 | YR (i : N) (o_ids : option (list N))
 | YT (o_note : option (list N))
 | YCrash (o_files : list N) (o_loaded : option N) (o_ltag : N)
@@ -27,10 +28,16 @@ Inductive case :=
 | C12 (ops : list c12op)
 | Seg (id : N) (o_seg : bytes)
 | Load (ids : list N) (o_listing : list N) (o_loaded : option N)
+(* the same over an S3Location (memory S3 service) at s3://bucket/jobs/etl while a sibling location
+   s3://bucket/jobs/etl-v2 of the same bucket holds the snapshot files of [sib] *)
+| LoadS3 (ids sib : list N) (o_listing : list N) (o_loaded : option N)
 | Sched (base : N) (steps : list c13step) (o_end_writes : list N) (o_end_removes o_end_notes : list (list N))
 (* a real dkv.DB takes DKV checkpoints 1,2,.. (RCk) and receives the job's retention notifications (RRt id), possibly
    late; o_open: the ids whose handle still opens at the end and holds every key written before that checkpoint *)
-| Retain (steps : list rstep) (o_open : list N).
+| Retain (steps : list rstep) (o_open : list N)
+(* jobs.New over a storage holding the snapshot files of [ids] whose reads of snapshot files fail as [fault] says
+   (0 none, 1 not-found, 2 another error): refused (error / panic) or started from o_cur *)
+| JobStart (ids : list N) (fault : N) (o_refused : bool) (o_cur : option N).
 
 (* ---------- equality tests on observables (order-insensitive where the order is not an API matter) ---------- *)
 Definition optN_eqb (a b : option N) : bool :=
@@ -122,14 +129,14 @@ Definition check_c12 (ops : list c12op) : list N :=
 (* ---------- C13 ---------- *)
 Definition hstep_of (y : c13step) : hstep :=
   match y with
-  | YPub _ _ _ => HPub | YW i _ _ => HW i | YR i _ => HR i | YT _ => HT | YCrash _ _ _ => HCrash
+  | YPub _ _ _ => HPub | YW i _ _ _ => HW i | YR i _ => HR i | YT _ => HT | YCrash _ _ _ => HCrash
   | YRewind sp _ _ _ => HRewind sp
   end.
 
 Definition cmp_hobs (model : hobs) (obs : c13step) : list N :=
   match model, obs with
   | OPub a, YPub _ _ b => if a =? b then [] else [21]
-  | OW a, YW _ b _ => if optN_eqb a b then [] else [22]
+  | OW a, YW _ b _ _ => if optN_eqb a b then [] else [22]
   | OR a, YR _ b => if opt_eqb set_eqb a b then [] else [23]
   | OT a, YT b => if opt_eqb listN_eqb a b then [] else [24]
   | OCrash l a, YCrash f b _ => (if listN_eqb l f then [] else [25]) ++ (if optN_eqb a b then [] else [26])
@@ -141,6 +148,18 @@ Fixpoint cmp_hobss (ms : list hobs) (os : list c13step) : list N :=
   | m :: ms', o :: os' => cmp_hobs m o ++ cmp_hobss ms' os'
   | [], [] => []
   | _, _ => [29]
+  end.
+
+(* CurrentCheckpoint().Id after every released write, against the model's completedSnapshots *)
+Fixpoint cmp_cur (q : pquirks) (s : pstate) (steps : list c13step) : list N :=
+  match steps with
+  | [] => []
+  | y :: r =>
+      let s' := fst (hexec1 q s (hstep_of y)) in
+      (match y with
+       | YW _ (Some _) _ c => if c =? match completed s' with x :: _ => x | [] => 0 end then [] else [28]
+       | _ => []
+       end) ++ cmp_cur q s' r
   end.
 
 Definition max_opt (l : list N) : option N := match l with [] => None | _ => Some (list_max l) end.
@@ -155,7 +174,8 @@ Fixpoint increasing (l : list N) : bool :=
    lifetime (newest first); [pubs]: id -> 2*n+sp of the created checkpoints; [cont]: id -> tag of the last write
    (LocalDirectory.Write replaces the content); [spc]: id -> tag of the savepoint artifact *)
 Record sst := MkSst { z_tl : list N; z_wr : list N; z_notes : list N;
-                      z_pubs : list (N * N); z_cont : list (N * N); z_spc : list (N * N) }.
+                      z_pubs : list (N * N); z_cont : list (N * N); z_spc : list (N * N);
+                      z_cur : N }.   (* the last CurrentCheckpoint id seen in this store lifetime *)
 
 Definition tag_ok (expected : option N) (t : N) : bool :=
   match expected with Some e => e =? t | None => true end.
@@ -164,14 +184,15 @@ Fixpoint spec_sched (z : sst) (steps : list c13step) : list N :=
   match steps with
   | [] => []
   | YPub n sp id :: r =>
-      spec_sched (MkSst (z_tl z) (z_wr z) (z_notes z) (write_file id (2 * n + (if sp then 1 else 0)) (z_pubs z)) (z_cont z) (z_spc z)) r
-  | YW _ (Some id) tag :: r =>
+      spec_sched (MkSst (z_tl z) (z_wr z) (z_notes z) (write_file id (2 * n + (if sp then 1 else 0)) (z_pubs z)) (z_cont z) (z_spc z) (z_cur z)) r
+  | YW _ (Some id) tag cur :: r =>
       let e := file_tag id (z_pubs z) in
       let n := match e with Some v => v / 2 | None => tag end in
       let sp := match e with Some v => v mod 2 =? 1 | None => false end in
       (if tag =? n then [] else [107]) ++
+      (if cur <? z_cur z then [112] else []) ++
       spec_sched (MkSst (id :: z_tl z) (id :: z_wr z) (z_notes z) (z_pubs z) (write_file id n (z_cont z))
-                        (if sp then write_file id n (z_spc z) else z_spc z)) r
+                        (if sp then write_file id n (z_spc z) else z_spc z) cur) r
   | YR _ (Some ids) :: r =>
       (if negb (is_nil (z_tl z)) && mem (list_max (z_tl z)) ids then [102] else []) ++ spec_sched z r
   | YT (Some note) :: r =>
@@ -180,17 +201,17 @@ Fixpoint spec_sched (z : sst) (steps : list c13step) : list N :=
        | [n], p :: _ => if p <? n then [] else [103]
        | [n], [] => []
        | _, _ => [103]
-       end) ++ spec_sched (MkSst (z_tl z) (z_wr z) (note ++ z_notes z) (z_pubs z) (z_cont z) (z_spc z)) r
+       end) ++ spec_sched (MkSst (z_tl z) (z_wr z) (note ++ z_notes z) (z_pubs z) (z_cont z) (z_spc z) (z_cur z)) r
   | YCrash fs ld ltag :: r =>
       (if optN_eqb ld (max_opt fs) then [] else [101]) ++
       (if is_nil (z_tl z) || mem (list_max (z_tl z)) fs then [] else [102]) ++
       (match ld with Some l => if tag_ok (file_tag l (z_cont z)) ltag then [] else [108] | None => [] end) ++
-      spec_sched (MkSst fs (z_wr z) [] (z_pubs z) (z_cont z) (z_spc z)) r
+      spec_sched (MkSst fs (z_wr z) [] (z_pubs z) (z_cont z) (z_spc z) (match ld with Some l => l | None => 0 end)) r
   | YRewind s fs ld ltag :: r =>
       (if optN_eqb ld (Some s) then [] else [109]) ++
       (if is_nil (z_tl z) || mem (list_max (z_tl z)) fs then [] else [102]) ++
       (if tag_ok (file_tag s (z_spc z)) ltag then [] else [108]) ++
-      spec_sched (MkSst [] (z_wr z) [] (z_pubs z) (z_cont z) (z_spc z)) r
+      spec_sched (MkSst [] (z_wr z) [] (z_pubs z) (z_cont z) (z_spc z) (match ld with Some l => l | None => 0 end)) r
   | _ :: r => spec_sched z r
   end.
 
@@ -214,14 +235,25 @@ Definition check_case (c : case) : list N :=
       (if listN_eqb (listing ids) l then [] else [8]) ++
       (if optN_eqb (load false ids) ld then [] else [9]) ++
       (if optN_eqb ld (max_opt ids) then [] else [104])
+  | LoadS3 ids sib l ld =>
+      (if set_eqb ids l then [] else [32]) ++
+      (if optN_eqb (load false ids) ld then [] else [9]) ++
+      (if optN_eqb ld (max_opt ids) then [] else [104])
   | Sched base steps ew er et =>
       let (s, os) := hrun prepaired (boot prepaired base) (map hstep_of steps) in
-      cmp_hobss os steps ++
+      cmp_hobss os steps ++ cmp_cur prepaired (boot prepaired base) steps ++
       (if listN_eqb (inflW s) ew && list_eqb set_eqb (pend_rm s) er
           && nll_eqb (match nhold s with Some n => [[n]] | None => [] end) et then [] else [27]) ++
       spec_sched (MkSst (if base =? 0 then [] else [base]) (if base =? 0 then [] else [base]) []
-                        [] (if base =? 0 then [] else [(base, 0)]) []) steps
+                        [] (if base =? 0 then [] else [(base, 0)]) [] base) steps
   | Retain steps o => check_retain steps o
+  | JobStart ids fault refused cur =>
+      (match job_start ids fault with
+       | None => if refused then [] else [31]
+       | Some c => if negb refused && optN_eqb c cur then [] else [31]
+       end) ++
+      (* the job either starts from the newest completed checkpoint in its storage or refuses to start *)
+      (if refused || optN_eqb cur (max_opt ids) then [] else [111])
   end.
 
 Definition run (cases : list (N * case)) : list (N * N) :=
